@@ -254,7 +254,7 @@ def run(ctx):
     corr = ctx.corr("history before the open", "windows returned by the real history_bars API in before_trading / open_auction vs the Lean history model applied to the bar table truncated "
                                                "at the previous trading day and the factor table truncated at today (bit-exact): the implementation answers like a model that cannot see later data")
     corr_f = ctx.corr("auction bar fields", "fields of the real bar_dict object in open_auction that carry a value vs the regenerated OPEN_AUCTION_BAR_FIELDS list")
-    n = ctx.n(10, 400)
+    n = ctx.n(10, 150)
     for k in range(n):
         seed = rnd.randrange(1, 10 ** 6)
         r2 = random.Random(seed)
